@@ -424,6 +424,18 @@ class SymArray(np.ndarray):
     def __or__(self, o):
         return elementwise(_BINARY[np.bitwise_or], self, o)
 
+    def tobytes(self, *a, **k):
+        """a value-based byte string (numpy's is the raw buffer: equal values give equal bytes); used by code that builds dictionary keys from arrays"""
+        def one(v):
+            if isinstance(v, (Sym, SymBool)):
+                return str(z3.simplify(v.e))
+            try:
+                return str(Fraction(v))
+            except Exception:
+                return repr(v)
+
+        return ("symarray:" + repr(self.shape) + ":" + "|".join(one(v) for v in self.view(np.ndarray).reshape(-1))).encode()
+
     def __bool__(self):
         if self.size != 1:
             raise ValueError("The truth value of an array with more than one element is ambiguous.")
